@@ -58,6 +58,8 @@ def generate0(tier, rng):
                     s, h = micelib.encode(p, rs, d)
                     yield f'mice.all {d} {max(rs, 16384)} {hexs(h)} {hexs(s)}'
                     yield f'mice.all {d} {rs - 1} {hexs(h)} {hexs(s)}'
+                    for mx in (2**63 - 1, 2**63, 2**64 - 1, 2**32, rs):      # "no limit" spelled as a huge unsigned value
+                        yield f'mice.all {d} {mx} {hexs(h)} {hexs(s)}'
         for _ in range(200 if not thorough else 5000):
             rs = rng.choice([1, 2, 3, 7, 16, 33, 100, 1000])
             p = rbytes(rng, rng.randrange(0, 5 * rs + 3))
